@@ -31,6 +31,7 @@ func readOnlyLetters(w *harness.World) []Letter {
 		{"Evict", func(w *harness.World) { w.Evict("x") }},
 		{"Stats", func(w *harness.World) { w.Stats() }},
 		{"CopyTo(orig,1)", func(w *harness.World) { w.CopyTo(-1, 1) }},
+		{"CopyTo(orig,1 -> existing)", func(w *harness.World) { w.CopyToExisting(1) }},
 	}
 }
 
@@ -87,6 +88,38 @@ func viewCheck(w *harness.World) {
 	}
 }
 
+// tornTail: a torn tail of every length below n after the last root record,
+// then re-open (the store is the last flush), Set, Flush.
+func tornTail(mon harness.Monitors, n int) *SeqProfile {
+	maxTail := n
+	return &SeqProfile{Name: "torntail", Keys: [][]byte{kA, kB}, Depth: 0, Mon: mon, StepLimit: 400000,
+		Init: func(w *harness.World) {
+			n := harness.Choose(maxTail, harness.ClassOp)
+			withCopy := n%8 == 3 // every 8th length: the tail ends in a copy of the first root record
+			w.Hist = append(w.Hist, fmt.Sprintf("Set(a) Flush Set(b) Flush +%d junk bytes (root copy %v), Reopen, Set(a), Flush", n, withCopy))
+			w.SetCollection("x", "nil")
+			w.SetItem("x", kA, 1, bs("v"))
+			w.Flush()
+			w.SetItem("x", kB, 2, bs("w"))
+			w.Flush()
+			junk := make([]byte, n)
+			for i := range junk {
+				junk[i] = byte('J' + i%7)
+			}
+			if withCopy {
+				if rs := harness.AllRoots(w.File.Data); len(rs) > 0 {
+					junk = append(junk, w.File.Data[rs[0].Off:rs[0].End]...)
+				}
+			}
+			w.File.Data = append(w.File.Data, junk...)
+			w.Reopen(true)
+			ensureX(w)
+			w.SetItem("x", kA, 3, bs("v2"))
+			w.Flush()
+		},
+		Letters: func(w *harness.World) []Letter { return nil }}
+}
+
 func c09Profiles(tier string) []Profile {
 	mon := harness.Monitors{Append: true, Tiling: true}
 	d := 4
@@ -129,39 +162,14 @@ func c09Profiles(tier string) []Profile {
 			}
 		}}
 	// a torn tail of every length after the last root record, then re-open and flush
-	torn := &SeqProfile{Name: "torntail", Keys: keys, Depth: 0, Mon: mon, StepLimit: 400000,
-		Init: func(w *harness.World) {
-			n := harness.Choose(4400, harness.ClassOp)
-			withCopy := n%8 == 3 // every 8th length: the tail ends in a copy of the first root record
-			w.Hist = append(w.Hist, fmt.Sprintf("Set(a) Flush Set(b) Flush +%d junk bytes (root copy %v), Reopen, Set(a), Flush", n, withCopy))
-			w.SetCollection("x", "nil")
-			w.SetItem("x", kA, 1, bs("v"))
-			w.Flush()
-			w.SetItem("x", kB, 2, bs("w"))
-			w.Flush()
-			junk := make([]byte, n)
-			for i := range junk {
-				junk[i] = byte('J' + i%7)
-			}
-			if withCopy {
-				if rs := harness.AllRoots(w.File.Data); len(rs) > 0 {
-					junk = append(junk, w.File.Data[rs[0].Off:rs[0].End]...)
-				}
-			}
-			w.File.Data = append(w.File.Data, junk...)
-			w.Reopen(true)
-			ensureX(w)
-			w.SetItem("x", kA, 3, bs("v2"))
-			w.Flush()
-		},
-		Letters: func(w *harness.World) []Letter { return nil }}
+	torn := tornTail(mon, 4400)
 	faulted := Profile{Name: "faulted", Exec: OnlyOracles(c07Exec(1, 1, false), "append", "readonly-write"),
 		Budget: map[int]int{1: 0, 2: 0, 3: 1}, ShardLevel: 3,
-		Rule: "the C07 driver (5 initial stores x every single I/O-performing operation x one failing file call at every index, torn writes) evaluated with the file monitor only: a failed Flush, FlushRevert, open or CopyTo must not write below the last durable root record nor truncate to anything but 0 or a root-record end"}
+		Rule: "the C07 driver (8 initial stores x every single I/O-performing operation x one failing file call at every index, torn writes) evaluated with the file monitor only: a failed Flush, FlushRevert, open or CopyTo must not write below the last durable root record nor truncate to anything but 0 or a root-record end"}
 	return []Profile{
 		torn.Profile("history [Set Flush, Set Flush] + a torn tail of every length 0..4399 bytes appended after the last root record, then Reopen, Set, Flush under the file monitor (no write below the last durable root record, the Flush tiles from the logical size) and the model (the re-opened store is the last flush)"),
 		faulted,
-		ro.Profile(fmt.Sprintf("every history of length <= %d mixing Set/Delete/Flush/Reopen/FlushRevert with every read-only entry point (Get, GetItem, Exist, Min, Max, 3 visit APIs, iterator, Len, block and random visits, EvictSomeItems, Stats, CopyTo as source, Snapshot and every snapshot method); every WriteAt/Truncate the store issues is checked: offset >= end of the last durable root record, writes of a Flush tile the appended region, Truncate only inside FlushRevert of the writable store and only to 0 or the end of a root record (independent decoder), zero writes/truncates during read-only calls", d)),
+		ro.Profile(fmt.Sprintf("every history of length <= %d mixing Set/Delete/Flush/Reopen/FlushRevert with every read-only entry point (Get, GetItem, Exist, Min, Max, 3 visit APIs, iterator, Len, block and random visits, EvictSomeItems, Stats, CopyTo as source - into an empty file and into a file that already holds a store, which may only be appended to -, Snapshot and every snapshot method); every WriteAt/Truncate the store issues is checked: offset >= end of the last durable root record, writes of a Flush tile the appended region, Truncate only inside FlushRevert of the writable store and only to 0 or the end of a root record (independent decoder), zero writes/truncates during read-only calls", d)),
 		stores.Profile(fmt.Sprintf("every history of length <= %d over the C02/C12 store alphabet (two collections, SetCollection/RemoveCollection, Evict, Flush, Reopen) plus FlushRevert, same per-call file checks", d+1)),
 		view.Profile(fmt.Sprintf("every history of length <= %d over Set/Delete/SetCollection/Flush; tools/view (built from the tree) is run on every distinct flushed image: names and items output equal the model, file bytes unchanged", dv)),
 	}
